@@ -118,6 +118,10 @@ func (gen *generator) irMetadata(old ast.Metadata) (metadata.Metadata, error) {
 		switch oldVal := old.Val().(type) {
 		case ast.Constant:
 			return gen.irConstant(typ, oldVal)
+		case *ast.LocalIdent:
+			// A local identifier has no definition outside of a function-local
+			// metadata operand.
+			return nil, errors.Errorf("invalid use of function-local name %q in metadata node", oldVal.Text())
 		default:
 			panic(fmt.Errorf("support for metadata value %T not yet implemented", oldVal))
 		}
